@@ -52,7 +52,10 @@ def build(seed):
                 q = (d + "/" if d else "") + f"m{sidx}_" + base
             # the new path must be one the history never recorded (C17 reading) and free
             ever = set(files) | {x for s in meta["steps"] for x in s["moves"].values()} | set(moved.values()) | set(cur)
-            if q in ever or q == p:
+            back = [o for s in meta["steps"] for o, n in s["moves"].items() if n == p and o not in cur and o not in moved.values()]
+            if back and rnd.random() < 0.5:
+                q = back[0]  # renamed back to the name it had before
+            elif q in ever or q == p:
                 continue
             moved[p] = q
         for p, q in moved.items():
